@@ -79,7 +79,10 @@ def parseCode (tok : String) : Option (Option Str) :=
 
 def event (d : DSt) (tok : String) : Option DSt :=
   match tok.splitOn ":" with
-  | [kind, path] => do
+  | [kind, path] =>
+    -- `inpub:n`: delivery while `publish()` is still in progress; the request is registered before
+    -- `publish()` is called, so for the model this is just another arrival order
+    if kind = "inpub" then (if path.toNat?.isSome then some d else none) else do
     let path ← decStr path
     let k ← match kind with
       | "get" => some Kind.get | "list" => some Kind.list | "clear" => some Kind.clear | "dump" => some Kind.dump
